@@ -192,7 +192,8 @@ def cform(f, flags):
         return f"FConst {cbool(f[1])}"
     if t == "n":
         return f"FNot ({cform(f[1], flags)})"
-    a, b = cform(f[1], flags), cform(f[2], flags)
+    a = cform(f[1], flags)
+    b = a if f[2] == f[1] else cform(f[2], flags)      # equal operands are one object, built once (see c15_impl.build)
     if t == "&":
         fl = next(flags)
         return f"FAnd {cbool(bool(fl and fl[0]))} ({a}) ({b})"
@@ -297,10 +298,10 @@ def gen_pred(ctx: Ctx, rng, quick: bool) -> Batch:
             b.add(3, label(s, rng, 3, True, kinds))
     # exhaustive depth 3 over 2 atoms is 195 k formulas: sampled in quick, complete in thorough without constants
     two = exhaustive([["a", 0, 0], ["a", 1, 0]], 3)
-    for f in (rng.sample(two, 3000) if quick else two[::4] + rng.sample(two, 20000)):
+    for f in (rng.sample(two, 3000) if quick else two[::8] + rng.sample(two, 10000)):
         b.add(2, f)
     # depth 4 / 4 atoms and larger, random, n-ary calls included
-    for _ in range(2500 if quick else 30000):
+    for _ in range(2500 if quick else 20000):
         n = rng.choice([3, 4, 4, 5])
         b.add(n, random_formula(rng, n, rng.randrange(2, 9), True, True, kinds))
     for _ in range(150 if quick else 2000):
@@ -320,9 +321,9 @@ def gen_nf(ctx: Ctx, rng, quick: bool) -> Batch:
         for _ in range(1 if quick else 6):
             b.add(3, {"f": label(s, rng, 3, False, kinds), "cnf": rng.random() < 0.5, "parse": rng.random() < 0.15})
     two = exhaustive([["a", 0, 0], ["a", 1, 0]], 3)
-    for f in (rng.sample(two, 2500) if quick else two[::6] + rng.sample(two, 15000)):
+    for f in (rng.sample(two, 2500) if quick else two[::10] + rng.sample(two, 8000)):
         b.add(2, {"f": f, "cnf": rng.random() < 0.5, "parse": False})
-    for _ in range(2500 if quick else 30000):
+    for _ in range(2500 if quick else 20000):
         n = rng.choice([3, 4, 4, 5])
         b.add(n, {"f": random_formula(rng, n, rng.randrange(2, 9), False, False, kinds, parens=True),
                   "cnf": rng.random() < 0.5, "parse": rng.random() < 0.2})
@@ -346,7 +347,7 @@ def check_pred(ctx: Ctx, st: State, n: int, f, o, coq=True):
     rep = {"system": "pred", "n": n, "f": f}
     sig = kind_sig(f)
     if o.get("skip"):
-        ctx.hist("pred_result", "skipped-too-big")
+        ctx.hist("pred_result", "skipped-" + str(o["skip"]))
         return
     if "error" in o:
         ctx.oracle_fail(f"pred-error:{o['error']}:{sig}", dict(rep, error=o), "building the predicate raised")
@@ -378,9 +379,8 @@ def check_pred(ctx: Ctx, st: State, n: int, f, o, coq=True):
             lit = cform(f, iter(flags))
         except StopIteration:
             lit, unknown = cform(f, iter([[False]] * 64)), True
-        st.form_cases.append(f"({n}%nat, {lit}, {ctable(o['tv'])}, {ccnf(o['ops']) if small else '[]'})")
+        st.form_cases.append(f"(({n}%nat, {lit}, {ctable(o['tv'])}, {('(Some ' + ccnf(o['ops']) + ')') if small and not unknown else 'None'}) : pcase)")
         st.form_meta.append(rep)
-        st.form_shape.append(small and not unknown)
     for s in o.get("steps") or []:
         if sum(len(g) for g in s["res"]) > 150 or sum(sum(len(g) for g in a) for a in [s["self"]] + s["args"]) > 150:
             continue
@@ -389,7 +389,7 @@ def check_pred(ctx: Ctx, st: State, n: int, f, o, coq=True):
         if s["op"] == "or":
             fl = [False] * len(s["args"])
         args = clist(f"({cbool(x)}, {ccnf(a)})" for x, a in zip(fl or [False] * len(s["args"]), s["args"]))
-        st.step_cases.append(f"({n}%nat, {op}%N, {ccnf(s['self'])}, {args}, {ctable(s['tv'])}, {ccnf(s['res'])})")
+        st.step_cases.append(f"(({n}%nat, {op}%N, {ccnf(s['self'])}, {args}, {ctable(s['tv'])}, {('(Some ' + ccnf(s['res']) + ')') if fl is not None else 'None'}) : scase)")
         st.step_meta.append({"system": "pred-step", "n": n, "op": s["op"], "self": s["self"], "args": s["args"], "flags": fl,
                              "shape_ok": fl is not None})
         ctx.hist("pred_step", f"{s['op']}/{len(s['args'])}")
@@ -401,6 +401,9 @@ def check_nf(ctx: Ctx, st: State, n: int, c, o, coq=True):
     rep = {"system": "nf", "n": n, "f": f, "cnf": cnf, "parse": c.get("parse", False)}
     fm = "cnf" if cnf else "dnf"
     sig = kind_sig(f)
+    if o.get("skip"):
+        ctx.hist("nf_result", "skipped-" + o["skip"])
+        return
     if "error" in o:
         ctx.oracle_fail(f"nf-error:{o['error']}:{fm}", dict(rep, error=o), "NormalFormExpression.fromTree/toTree raised")
         return
@@ -424,8 +427,8 @@ def check_nf(ctx: Ctx, st: State, n: int, c, o, coq=True):
                         "result of normalisation is not in the requested normal form")
     if not coq or o["leaves"] > 200:
         return
-    st.nf_cases.append(f"({n}%nat, {cbool(cnf)}, {cltree(o['input'])}, {ctable(o['tt'])}, "
-                       f"{clist(clist(cltree(x) for x in g) for g in o['nodes'])}, {cltree(o['tree'])})")
+    st.nf_cases.append(f"(({n}%nat, {cbool(cnf)}, {cltree(o['input'])}, {ctable(o['tt'])}, "
+                       f"{clist(clist(cltree(x) for x in g) for g in o['nodes'])}, {cltree(o['tree'])}) : ncase)")
     st.nf_meta.append(rep)
 
 
@@ -433,7 +436,7 @@ def run_impl(ctx: Ctx, st: State, pred: Batch, nf: Batch, coq=True, steps_frac=T
     payloads, index = [], []
     for n, fs in pred.by_n.items():
         for ch in _chunks(fs, 1500):
-            payloads.append(("run_pred", {"n": n, "formulas": ch, "max_literals": 3000, "steps": n >= 4 and steps_frac}))
+            payloads.append(("run_pred", {"n": n, "formulas": ch, "max_literals": 400, "steps": n in (4, 5) and steps_frac}))
             index.append(("pred", n, ch))
     for n, cs in nf.by_n.items():
         for ch in _chunks(cs, 1500):
@@ -442,7 +445,7 @@ def run_impl(ctx: Ctx, st: State, pred: Batch, nf: Batch, coq=True, steps_frac=T
     from concurrent.futures import ThreadPoolExecutor
     from harness.common import NCPU
     with ThreadPoolExecutor(max_workers=max(2, NCPU - 1)) as ex:
-        results = list(ex.map(lambda p: run_worker("c15_impl", p[0], p[1], timeout=900), payloads))
+        results = list(ex.map(lambda p: run_worker("c15_impl", p[0], p[1], timeout=600), payloads))
     for (kind, n, ch), (status, res) in zip(index, results):
         if status != "ok":
             # a hang / crash of pure boolean rewriting is itself a failure of the property's "always produces"
@@ -462,43 +465,41 @@ HDRG = HDR + "From V Require Import Gen.PredGen Model.PredCheckGen.\n"
 
 
 def coq_side(ctx: Ctx, st: State, gen_ok: bool):
-    def drift(name, cases, meta, idxs):
-        for i in idxs[:3]:
-            ctx.cov["structural_drift"].append({"check": name, "case": meta[i]})
-        if idxs:
-            ctx.log(f"structural drift ({name}): {len(idxs)} cases, e.g. {json.dumps(meta[idxs[0]])[:300]}")
-
-    def tie(name, hdr, cases, meta, chk, shard):
-        bad = ctx.coq_cases(name, hdr, cases, chk, shard=shard)
-        for i in (bad or [])[:5]:
-            ctx.disagreement(name, meta[i], "model and implementation produce different truth tables")
-        return bad
-
-    sh_idx = [i for i, ok in enumerate(st.form_shape) if ok]
-    sh_cases = [st.form_cases[i] for i in sh_idx]
-    sh_meta = [st.form_meta[i] for i in sh_idx]
-    st_idx = [i for i, m in enumerate(st.step_meta) if m["shape_ok"]]
-    tie("form_hand", HDR, st.form_cases, st.form_meta, "chk_form_table", 1500)
-    tie("step_hand", HDR, st.step_cases, st.step_meta, "chk_step_table", 1500)
-    tie("nf_hand", HDR, st.nf_cases, st.nf_meta, "chk_nf_table", 1200)
-    if gen_ok:
-        tie("form_gen", HDRG, st.form_cases, st.form_meta, "chk_form_table_gen", 1500)
-        tie("step_gen", HDRG, st.step_cases, st.step_meta, "chk_step_table_gen", 1500)
-    # drift-only structure comparisons
-    for name, hdr, cases, meta, chk in (
-        ("form_shape", HDRG if gen_ok else HDR, sh_cases, sh_meta, "chk_form_shape_gen" if gen_ok else "chk_form_shape"),
-        ("step_shape", HDRG if gen_ok else HDR, [st.step_cases[i] for i in st_idx], [st.step_meta[i] for i in st_idx],
-         "chk_step_shape_gen" if gen_ok else "chk_step_shape"),
-        ("nf_shape", HDR, st.nf_cases, st.nf_meta, "chk_nf_shape"),
+    """One vm_compute pass per case list with the conjunction of all checkers; only the cases it rejects are
+    re-evaluated with the individual checkers to tell a broken tie (truth tables differ) from structural drift."""
+    G = "_gen" if gen_ok else ""
+    hdr = HDRG if gen_ok else HDR
+    for name, cases, meta, allchk, tables, shapes_ in (
+        ("form", st.form_cases, st.form_meta, f"chk_form_all{G}", ["chk_form_table"] + (["chk_form_table_gen"] if gen_ok else []),
+         ["chk_form_shape"] + (["chk_form_shape_gen"] if gen_ok else [])),
+        ("step", st.step_cases, st.step_meta, f"chk_step_all{G}", ["chk_step_table"] + (["chk_step_table_gen"] if gen_ok else []),
+         ["chk_step_shape"] + (["chk_step_shape_gen"] if gen_ok else [])),
+        ("nf", st.nf_cases, st.nf_meta, "chk_nf_all", ["chk_nf_table"], ["chk_nf_shape"]),
     ):
-        saved = list(ctx.broken)
-        bad = ctx.coq_cases(name, hdr, cases, chk, shard=1500)
-        if bad is None:
-            ctx.broken[:] = saved       # evaluation failure of a drift-only comparison is logged, not a verdict
-            ctx.cov["ties"][f"K:{name}"] = "drift check not evaluated"
-        else:
-            ctx.cov["ties"][f"K:{name}"] = "ok (drift-only)" if not bad else f"{len(bad)} structural differences (drift-only)"
-            drift(name, cases, meta, bad)
+        if not cases:
+            continue
+        bad = ctx.coq_cases(name, hdr, cases, allchk, shard=700)
+        if not bad:
+            if bad is not None:
+                ctx.cov["ties"][f"K:{name}"] = f"ok: {len(cases)} cases, truth tables and exact structure agree ({allchk})"
+            continue
+        sub = [cases[i] for i in bad[:300]]
+        submeta = [meta[i] for i in bad[:300]]
+        tie_bad = set()
+        for chk in tables:
+            r = ctx.coq_cases(f"{name}_{chk}", hdr, sub, chk, shard=700)
+            for i in (r or []):
+                tie_bad.add(i)
+                if len(tie_bad) <= 5:
+                    ctx.disagreement(f"{name}:{chk}", submeta[i], "model and implementation produce different truth tables")
+        drift = [i for i in range(len(sub)) if i not in tie_bad]
+        for i in drift[:3]:
+            ctx.cov["structural_drift"].append({"check": name, "case": submeta[i]})
+        if drift:
+            ctx.log(f"structural drift ({name}): {len(drift)} of {len(cases)} cases differ in exact structure only, e.g. "
+                    f"{json.dumps(submeta[drift[0]])[:300]}")
+        ctx.cov["ties"][f"K:{name}"] = (f"{len(tie_bad)} truth-table disagreements" if tie_bad
+                                         else f"ok on truth tables; {len(drift)} structural differences (drift-only)")
 
 
 def run_corpus(ctx: Ctx, st: State):
@@ -565,7 +566,7 @@ def search(ctx: Ctx):
     ctx.log("obligation/tie broken without an oracle failure: running the thorough-size search on the implementation")
     st = State()
     n0 = ctx.cov["evaluations"]
-    for seed in range(1, 4 if ctx.quick else 8):
+    for seed in range(1, 3 if ctx.quick else 6):
         rng = random.Random(f"C15-search:{ctx.seed}:{seed}")
         run_impl(ctx, st, gen_pred(ctx, rng, False), gen_nf(ctx, rng, False), coq=False, steps_frac=False)
         if ctx.oracle_failures:
